@@ -497,6 +497,8 @@ def main(argv):
     mod = importlib.util.module_from_spec(spec)
     sys.path.insert(0, os.path.join(VERIF, "tools"))
     sys.path.insert(0, os.path.join(VERIF, "checks"))
+    # checks do `from vlib import InfraError`: make that the same class object as ours
+    sys.modules.setdefault("vlib", sys.modules[__name__])
     spec.loader.exec_module(mod)
     ctx = Ctx(pid, a.tier, seed, getattr(mod, "LEVEL", "model_checking"), replay=a.replay)
     rc = 2
